@@ -37,27 +37,37 @@ CL_ISO = "C19.clone_isolation"
 CL_FRZ = "C19.frozen_rejects_mutation"
 
 BOUNDS = (
-    "Real dns.btree code against a dict+sorted-list reference and a cut-based cursor model; after every "
-    "operation: lookup/len/in-order iteration/visit, insert/delete return values, static cursor walks "
-    "(seek before/after every present and absent key, 5-step walks with both direction changes, full "
-    "forward/backward walks), occupancy t-1..2t-1 (root exempt from the minimum, internal root >= 1 key), "
-    "children == keys+1, equal leaf depth, and every frozen tree still equal to its snapshot. "
-    "EXHAUSTIVE: (A) every insertion order of 7 keys (quick) / 8 keys (thorough) for t=3 and 8 / 9 keys for "
-    "t=4, in_order on and off, in place; (B) every B-tree state reachable by any sequence of "
-    "insert/replace/delete over a universe of U keys, every operation applied to a fresh copy-on-write clone "
-    "of every state (quick: t=3 U=10, t=4 U=10, t=5 U=10; thorough: t=3 U=13, t=4 U=12, t=5 U=12; dict and "
-    "set, in_order on/off), every frozen state re-verified at the end and every mutator tried on every "
-    "frozen state; (C) for every state of a smaller closure (quick t=3 U=7, t=4 U=8; thorough t=3 U=9, t=4 "
-    "U=9) every ordered pair of operations on one clone and, for every operation, cursors opened beforehand "
-    "at every cut through every route (seek before/after, after next(), after prev(), boundaries, "
-    "exhausted, fresh; registered and manually parked) and read afterwards in all four 2-step direction "
-    "patterns; (F) depth-2 (quick) / depth-3 (thorough) closures over all keys and gaps around height-3 "
-    "bases for t=3 (near-minimal height 3 reached by greedy deletion, fullest height-2 tree from in-order loading, ascending with and without in_order, "
-    "seeded). SEEDED: (D) histories of <= 400 operations over <= 120 keys for t in {3,4,5,6} and <= 1500 "
-    "operations over <= 700 keys for t in {8,16,127}, dict and set, int/str/dns.name.Name keys, in_order "
-    "off/on/mixed per call, up to 4 mutable clones and 10 frozen trees alive, freeze/clone at random points, "
-    "up to 6 cursors kept open across mutations, iteration while mutating, all wrapper APIs (quick ~60 "
-    "histories, thorough until ~8 min). Not covered: keys with inconsistent ordering, t > 127, threads."
+    "Real dns.btree code (BTreeDict and BTreeSet) against a dict + sorted-list reference and a cut-based "
+    "cursor model (a cursor is -inf, +inf, just-before-k or just-after-k; next/prev move the cut). After every "
+    "operation: return values of insert/delete, len, contents and values by an independent node traversal, "
+    "occupancy t-1..2t-1 (root exempt from the minimum, an internal root needs >= 1 key), children == keys+1, "
+    "equal leaf depth, every frozen tree identical to its snapshot (structure and element identity); for "
+    "every structure seen for the first time also lookup of every present key and every gap, iteration, "
+    "visit_in_order, items/keys, and static cursor walks (seek before/after every key and gap, the 5-step "
+    "walks nppnn and pnnpp, full forward and backward walks, both boundaries). "
+    "EXHAUSTIVE: (A) every insertion order in place - quick: 7 keys t=3 with in_order off and on, set 6 keys; "
+    "thorough: 8 keys for t=3 and t=4, off and on, set 7 keys. (B) every B-tree state reachable by any "
+    "sequence of insert/replace/delete (present or absent key) over a universe of U keys, each operation "
+    "applied to a fresh copy-on-write clone of each frozen state, every mutator tried on every frozen state, "
+    "all states re-verified against their snapshots at the end - quick: (t,U,in_order) = (3,10,off) (3,9,on) "
+    "(4,10,off) (5,10,off), set (3,8,on); thorough: (3,12,off) (3,11,on) (4,12,off) (4,11,on) (5,12,off) "
+    "(6,12,off), set (3,10,on). (C) the same closure on smaller universes with ~130 cursors opened "
+    "beforehand at every cut through every route (seek before/after, after next(), after prev(), "
+    "seek_first/last, exhausted, fresh; half registered, half parked by hand) and read afterwards in the "
+    "patterns nn/pp/np/pn - quick (3,7,off) (3,7,on) set (3,6); thorough (3,9,off) (3,8,on) (4,9,off) "
+    "(5,10,off) set (3,8) - and with every ordered pair of operations on one clone (partially owned trees) - "
+    "quick (3,7,off); thorough (3,8,off) (3,8,on) (4,9,off). (F) closures of depth 2 (thorough also depth 3 "
+    "for one base) over every present key and one key per gap around height-3 / full height-2 bases of 20-70 "
+    "keys (greedy near-minimal, fullest in-order load, ascending, descending, seeded) - quick 4 bases t=3; "
+    "thorough 12 bases t=3 and 9 bases t=4. "
+    "SEEDED: (D) 21 configurations: histories of 400 operations over 120-200 keys for t in {3,4,5,6} x "
+    "in_order {off,on,mixed per call}, sets, str and dns.name.Name keys, a 24-key churn, and 900-1500 "
+    "operations over 400-700 keys for t in {8,16,127}; up to 4 mutable clones and 10 frozen trees alive, "
+    "freeze/clone at random points, up to 6 cursors kept open across mutations (also on frozen originals while "
+    "clones change), iteration while mutating, every wrapper API (insert_element, __setitem__, update, add, "
+    "delete_key, __delitem__, pop, discard, remove, delete_exact), all trees checked after every mutation; "
+    "quick one round (~8k steps), thorough rounds until 480 s (~400k steps). "
+    "Not covered: key types with an inconsistent order, t > 127, more than one thread."
 )
 
 _VAL = itertools.count(1)
